@@ -209,10 +209,7 @@ Definition make_slice_cache (cv : list Z) : slices :=
 
 (* first sample of [a,b) whose phase is above 1.5pi *)
 Definition first_above (trough : Z) (ph : list Z) (a b : nat) : option nat :=
-  match positions (fun x => trough <? x) (slice ph a b) with
-  | [] => None
-  | i :: _ => Some (a + i)%nat
-  end.
+  find (fun i => trough <? nth i ph 0) (seq a (b - a)).
 
 Definition augment_slice (trough : Z) (ph : list Z) (prev : option (nat * nat)) (s : nat * nat)
   : option (nat * nat) :=
@@ -533,6 +530,125 @@ Definition aug_samples (P : cv_params) (trough : Z) (ph vals : list Z) (k : nat)
       | _, _ => None
       end
   end.
+
+(* the text of the six comparators *)
+Definition cmp_chars (c : cmp) : list ascii :=
+  match c with
+  | CEq => ["="; "="] | CNe => ["!"; "="] | CLe => ["<"; "="] | CGe => [">"; "="]
+  | CLt => ["<"] | CGt => [">"]
+  end%char.
+
+Definition no_opchar (l : list ascii) : Prop := Forall (fun c => is_opchar c = false) l.
+
+(* a literal text: something float() accepts never begins with one of = < > ! *)
+Definition starts_clean (l : list ascii) : Prop :=
+  match l with [] => False | c :: _ => is_opchar c = false end.
+
+Definition cond_view (o : option cond) : option (string * cmp * Q) :=
+  option_map (fun c => (c_name c, c_cmp c, Qred (c_lit c))) o.
+
+(* a cycle is selected iff it satisfies EVERY condition string *)
+Definition cond_holds (ms : list metric) (k : nat) (s : string) : Prop :=
+  exists c m, parse_cond s = Some c /\ find_metric (c_name c) ms = Some m /\
+              eval_cmp (c_cmp c) (nth k (m_vals m) None) (c_lit c) = true.
+
+(* the vector Cycles.__init__ stores: all cycles, nothing masked *)
+Definition container (P : cv_params) (ph cv : list Z) : Prop :=
+  get_cycle_vector P false None ph = Some cv.
+
+(* the cache, when there is one, holds the segments and their augmented versions *)
+Definition cache_ok (st : cstate) : Prop :=
+  s_cache st = None \/
+  s_cache st = Some (segs_of (s_P st) (s_ph st),
+                     make_aug_slice_cache (s_trough st) (s_ph st) (segs_of (s_P st) (s_ph st))).
+
+(* value a chain-level quantity g takes on cycle k: g(chain of k), -1 outside the chains *)
+Definition chain_value (chv sv : list Z) (g : nat -> Z) (k : nat) : Z :=
+  match map_cycle_to_chain chv sv (Z.of_nat k) with FVal c => g (Z.to_nat c) | _ => -1 end.
+
+(* chain_start / chain_end / chain_len_samples / chain_len_cycles of chain c *)
+Definition chain_quantity (st : cstate) (chv sv : list Z) (kind : nat) (c : nat) : Z :=
+  match map_chain_to_samples chv sv (s_cv st) (Z.of_nat c) with
+  | Some inds => chain_t_f kind (take_inds (chain_t_src st kind) inds)
+  | None => -1
+  end.
+
+(* number of earlier selected cycles in the same chain *)
+Definition chain_rank (chv : list Z) (j : nat) : Z :=
+  Z.of_nat (count_true (map (Z.eqb (nth j chv (-1))) (firstn j chv))).
+
+Definition chain_metric_ok (st : cstate) (sv chv : list Z) (p : prov) (vals : list (option Z)) : Prop :=
+  match p with
+  | PChainInd =>
+      forall k, (k < ncyc st)%nat ->
+        nth_error vals k = Some (Some (chain_value chv sv (fun c => Z.of_nat c) k))
+  | PChainT 4 =>
+      forall k, (k < ncyc st)%nat ->
+        nth_error vals k = Some (Some (match map_cycle_to_subset sv (Z.of_nat k) with
+                                       | FVal j => chain_rank chv (Z.to_nat j)
+                                       | _ => -1
+                                       end))
+  | PChainT kind =>
+      forall k, (k < ncyc st)%nat ->
+        nth_error vals k = Some (Some (chain_value chv sv (chain_quantity st chv sv kind) k))
+  | _ => True
+  end.
+
+(* one entry per cycle, and the value its origin says it must have *)
+Definition metric_ok (st : cstate) (m : metric) : Prop :=
+  length (m_vals m) = ncyc st /\
+  match m_prov m with
+  | PComputed f MCycle vals =>
+      length vals = nsamples st /\
+      forall k, (k < ncyc st)%nat ->
+        nth_error (m_vals m) k = Some (Some (f (samples_with_label (s_cv st) vals (Z.of_nat k))))
+  | PComputed f MAug vals =>
+      length vals = nsamples st /\
+      forall k, (k < ncyc st)%nat ->
+        nth_error (m_vals m) k = Some (option_map f (aug_samples (s_P st) (s_trough st) (s_ph st) vals k))
+  | PAdded => True
+  | p =>
+      (* chain metrics written since the last selection describe the current chains *)
+      (s_pick_clock st < m_stamp m)%nat ->
+      match s_subset st, s_chain st with
+      | Some sv, Some chv => chain_metric_ok st sv chv p (m_vals m)
+      | _, _ => False
+      end
+  end.
+
+(* no metric named by the conditions has been rewritten since the selection was made *)
+Definition fresh_conds (st : cstate) (cs : list string) : Prop :=
+  Forall (fun s => match parse_cond s with
+                   | None => False
+                   | Some c => match find_metric (c_name c) (s_metrics st) with
+                               | None => False
+                               | Some m => (m_stamp m < s_pick_clock st)%nat
+                               end
+                   end) cs.
+
+Definition sel_ok (st : cstate) : Prop :=
+  match s_conds st, s_subset st, s_chain st with
+  | None, None, None => True
+  | Some cs, Some sv, Some chv =>
+      length (s_valids st) = ncyc st /\
+      sv = get_subset_vector (s_valids st) /\
+      chv = get_chain_vector sv /\ chv <> [] /\
+      (fresh_conds st cs -> get_matching st cs = Ok (s_valids st))
+  | _, _, _ => False
+  end.
+
+Definition Inv (st : cstate) : Prop :=
+  container (s_P st) (s_ph st) (s_cv st) /\
+  cache_ok st /\
+  Forall (metric_ok st) (s_metrics st) /\
+  sel_ok st /\
+  Forall (fun m => (m_stamp m <= s_clock st)%nat) (s_metrics st) /\
+  (s_pick_clock st <= s_clock st)%nat.
+
+Definition drop_cache (st : cstate) : cstate :=
+  {| s_P := s_P st; s_trough := s_trough st; s_ph := s_ph st; s_cv := s_cv st; s_cache := None;
+     s_metrics := s_metrics st; s_subset := s_subset st; s_chain := s_chain st; s_conds := s_conds st;
+     s_valids := s_valids st; s_clock := s_clock st; s_pick_clock := s_pick_clock st |}.
 
 (* ====================================================================================== *)
 (* rendering for the harness                                                               *)
